@@ -252,6 +252,11 @@ class BaseCommand(FlockMixin, ABC):
                     )
                 except Exception as e:
                     logger.warning(f"Could not write the run meta to the database: {e!r}")
+                # A Ctrl-C which arrives while the run is already being wrapped up cancels this
+                # task. The remaining bookkeeping (closing the database, META.json, log files,
+                # lock file) still has to happen; the pending update is committed by disconnect().
+                except asyncio.CancelledError as e:
+                    logger.warning(f"Interrupted while writing the run meta to the database: {e!r}")
 
             try:
                 await self.db_handler.disconnect()
